@@ -50,6 +50,21 @@ state change at all. -/
 theorem close_idempotent (l : Life) (hc : l.closed = true) : step l .closeAgain = some l := by
   simp [step, hc]
 
+/-- **`close()` never raises AttributeError**: whatever happened while it was under way (the peer's close served inside
+`before_closed`, so that `_cleanup` runs a second time in the `finally`), what a `close()` call raises is only a user
+hook's own exception or the stream's own close() error.  (Obligation `cleanup_idempotent`, measured on the code.) -/
+theorem close_never_raises_attribute_error {l l' : Life} {r : TryRes} (h : step l (.closeEnd r) = some l') :
+    ∃ x : Option CloseExc, l'.closeRaised = l.closeRaised ++ x.toList ∧ x ≠ some .attributeError := by
+  simp only [step] at h
+  split at h
+  · simp only [Option.some.injEq] at h
+    subst h
+    refine ⟨(finishClose r l).2, ?_, finishClose_no_attribute_error r l⟩
+    show (finishClose r l).1.closeRaised ++ _ = _
+    rw [finishClose_fst]
+    simp [(cleanup_lists l).2.2.2.2.2]
+  · cases h
+
 /-! ### (6) every ending event leads to closed -/
 
 theorem clean_of_closed {l : Life} (h : Reach l) (hc : l.closed = true) (hi : l.inClose = false) : Clean l :=
@@ -95,7 +110,7 @@ theorem recv_close_leads_to_closed {l l' : Life} (h : Reach l) (hs : step l .rec
       rw [← hs]
       exact released_of_blocked_eq (cleanup_lists l).2.2.2.1 (resolveBlocked_released _ _)
     have hcl : l'.closed = true := by rw [← hs]; exact c.2.1
-    have hin : l'.inClose = l.inClose := by rw [← hs]; exact c.2.2.2.2.2.1
+    have hin : l'.inClose = l.inClose := by rw [← hs]; exact c.2.2.2.2.2
     refine ⟨hcl, by rw [← hs]; exact c.2.2.2.2.1, by rw [← hs]; exact c.2.2.2.1, by rw [← hs]; exact c.2.2.1, ?_, hrel⟩
     intro hi
     exact clean_of_closed h' hcl (by rw [hin, hi])
@@ -270,7 +285,7 @@ theorem C11_holds : C11_statement := by
 /-- inside `close()` the flag is already set while the hook has not run yet (what a second thread or the
 `before_closed` callback can observe); the theorems above speak about API-call boundaries -/
 theorem in_close_window : ∃ l, Reach l ∧ l.closed = true ∧ l.inClose = true ∧ l.hookRuns = 0 :=
-  ⟨_, ⟨false, [.closeBegin], rfl⟩, rfl, rfl, rfl⟩
+  ⟨_, ⟨false, false, [.closeBegin], rfl⟩, rfl, rfl, rfl⟩
 
 /-- a sync request answered, an async one pending and one blocked when EOF is met while serving, a waiter
 for the pending one afterwards, a request issued afterwards with a by-reference argument, a second close -/
@@ -285,13 +300,14 @@ example : ∃ l, run Life.init sampleEof = some l ∧ l.closed = true ∧ l.hook
 
 /-- `close()` whose `before_closed(self.root)` serves the connection and receives the peer's HANDLE_CLOSE
 (a transport that accepts a write after the peer has closed): `_cleanup` runs inside and again in the
-`finally`; the second run raises AttributeError before reaching the hook — the hook has run once, the side
-is clean, a further `close()` is a no-op -/
+`finally`; the second run does nothing (obligation `cleanup_idempotent`: before the repair it raised
+AttributeError out of `close()`) — the hook has run once, the side is clean, `close()` returns normally, a
+further `close()` is a no-op -/
 def sampleBothAtOnce : List Ev :=
   [.closeBegin, .issue 0 false, .wait 0 false .eof, .recvClose, .closeEnd .eof, .closeAgain]
 
 example : ∃ l, run Life.init sampleBothAtOnce = some l ∧ l.closed = true ∧ l.inClose = false ∧ l.hookRuns = 1
-    ∧ l.tablesCleared = true ∧ l.outcomes = [(0, .eof)] ∧ l.closeRaised = [.attributeError] :=
+    ∧ l.tablesCleared = true ∧ l.outcomes = [(0, .eof)] ∧ l.closeRaised = [] :=
   ⟨_, rfl, rfl, rfl, rfl, rfl, rfl, rfl⟩
 
 /-- close from inside a callback while two wait loops are blocked below it, the handler returning a
@@ -316,6 +332,13 @@ example : ∃ l, run (Life.initWith true) [.issue 0 false, .wait 0 false .eof, .
 
 example : ∃ l, run (Life.initWith true) [.closeBegin, .closeEnd .sent, .closeAgain] = some l ∧ l.closed = true
     ∧ l.hookRuns = 1 ∧ l.tablesCleared = true ∧ l.closeRaised = [.hook] :=
+  ⟨_, rfl, rfl, rfl, rfl, rfl⟩
+
+/-- a side whose STREAM raises from its own close(): `close()` raises that error, yet the hook has run once and
+everything is released (obligation `cleanup_survives_channel_close_error`: before the repair `_channel.close()` sat
+outside `_cleanup`'s `finally`, and the side stayed closed-but-uncleaned for good) -/
+example : ∃ l, run (Life.initWith false true) [.issue 0 true, .closeBegin, .closeEnd .sent, .closeAgain] = some l
+    ∧ l.closed = true ∧ l.hookRuns = 1 ∧ l.tablesCleared = true ∧ l.closeRaised = [.channel] :=
   ⟨_, rfl, rfl, rfl, rfl, rfl⟩
 
 /-- a raising `before_closed` hook (`close_catchall` off): the call raises, the side is clean all the same -/
